@@ -52,6 +52,7 @@ type FuncContract struct {
 	Inline   bool
 	Trusted  bool // contract assumed, body not verified (listed as assumption)
 	NoSafety bool
+	Budget   int // solver seconds per obligation (0 = tier default)
 	FrameOnly bool // only frame/initialisation obligations (no SMT obligations are generated)
 	Requires []*Clause
 	Ensures  []*Clause
@@ -97,7 +98,7 @@ type Contracts struct {
 	File    string
 }
 
-var keywordRe = regexp.MustCompile(`^(spec|axiom|lemma|func|props|tier|arith|pure|inline|trusted|nosafety|requires|ensures|expect|panics|modifies|loop|ghost|assert|replaces|initfields|frameonly)\b`)
+var keywordRe = regexp.MustCompile(`^(spec|axiom|lemma|func|props|tier|arith|pure|inline|trusted|nosafety|requires|ensures|expect|panics|modifies|loop|ghost|assert|replaces|initfields|frameonly|budget)\b`)
 var labelRe = regexp.MustCompile(`^\[([A-Za-z0-9_.\-]+)\]\s*`)
 
 func (c *Contracts) newClause(kind, text string, line int) *Clause {
@@ -224,6 +225,8 @@ func ParseContracts(path string) (*Contracts, error) {
 				cur.NoSafety = true
 			case "frameonly":
 				cur.FrameOnly = true
+			case "budget":
+				fmt.Sscanf(rest, "%d", &cur.Budget)
 			case "ghost":
 				cur.Ghosts = append(cur.Ghosts, strings.TrimSpace(rest))
 			case "replaces", "initfields":
